@@ -384,7 +384,7 @@ func init() {
 
 	planTable["C29"] = func(q bool) *Plan {
 		p := &Plan{Level: "model_checking", Engine: "E-seq + E-sched + E-crash",
-			Text:      "Sequences: breadth-first search over histories on keys {p1a,p1b,p2a,q} (writes with inline and value-log values, deletes, flushes, every picker compaction, close/re-open) with DropPrefix for the prefix sets {p1}, {p}, {p1,q}, {p1,p2}, {p1a,p1} (overlapping), {p1a,qq} (two non-adjacent tables, each keeping a key), {zz} (no match) and DropAll as transitions, from empty and from seeds whose deeper level holds one table per key; after every transition every key read by Get and both iterator directions equals the model (keys with a dropped prefix invisible, every other key unchanged, later writes accepted), levels are structurally valid and equal to MANIFEST and files. Schedules: a transaction writing a dropped and a kept key races DropPrefix / DropAll at the points of the commit pipeline and of the drop: the final state is commit-then-drop, drop-then-commit, or the commit failed with ErrBlockedWrites and left nothing. Crashes: every persistence step of histories containing DropPrefix / DropAll: after recovery the state is a commit-order prefix, or, inside a drop, every key has its pre-drop value or is absent.",
+			Text:      "Sequences: breadth-first search over histories on keys {p1a,p1b,p2a,q} (writes with inline and value-log values, deletes, flushes, every picker compaction, close/re-open) with DropPrefix for the prefix sets {p1}, {p}, {p1,q}, {p1,p2}, {p1a,p1} (overlapping), {p1a,qq} (two non-adjacent tables, each keeping a key), {zz} (no match) and DropAll as transitions, from empty, from seeds whose deeper level holds one table per key, and from seeds with an older level-0 table that holds no dropped key while the key it holds is deleted or overwritten in the memtable the drop flushes; after every transition every key read by Get and both iterator directions equals the model (keys with a dropped prefix invisible, every other key unchanged, later writes accepted), levels are structurally valid and equal to MANIFEST and files. Schedules: a transaction writing a dropped and a kept key races DropPrefix / DropAll at the points of the commit pipeline and of the drop: the final state is commit-then-drop, drop-then-commit, or the commit failed with ErrBlockedWrites and left nothing. Crashes: every persistence step of histories containing DropPrefix / DropAll: after recovery the state is a commit-order prefix, or, inside a drop, every key has its pre-drop value or is absent.",
 			Note:      "Drops run without concurrent readers (documented precondition of DropAll).",
 			Technique: "explicit-state BFS over operation sequences + stateless model checking of commit vs drop + crash-point enumeration, all on the implementation",
 			Rule:      "BFS states = canonical LSM shapes; schedules up to the bound; crash points = every persistence step"}
@@ -407,6 +407,8 @@ func init() {
 			p.Stages = []Stage{
 				bfs("lsm", 4, 50, withOps(base, "Sp1a Sp2a Sq Dp1a F C0 Yp1 Yp Yp1,q Yp1,p2 Yp1a,p1 Yzz V R")),
 				bfs("lsm", 3, 50, withOps(big, "Sp1a Sq Dp1a F C0 Yp1 Yp Yp1,q Yp1a,qq Yp1a,p1 V R"), seeds...),
+				// an older L0 table WITHOUT the prefix whose key is deleted/overwritten in the table the drop flushes
+				bfs("lsm", 4, 40, withOps(base, "Dq Sq Sp1a F Yp1 Yp1,p2 R"), seq("Sq F"), seq("Sq Sp2a F")),
 				sched("c29race", 2, 4, 40, prm("cases", 4)),
 				en("crash08", 16, 60, prm("oracle", "c29", "len", 3, "alphabet", "T2 WB F C DP DA")),
 				en("crash08", 16, 40, prm("oracle", "c29", "len", 4, "alphabet", "T2 F DA DP")), // overwrite after a flush, then the drop
@@ -415,6 +417,7 @@ func init() {
 			p.Stages = []Stage{
 				bfs("lsm", 5, 900, withOps(base, "Sp1a Sp1b Sp2a Sq Dp1a F C0 C1 Yp1 Yp Yp1,q Yp1,p2 Yp1a,p1 Yzz V R")),
 				bfs("lsm", 4, 600, withOps(big, "Sp1a Sq Dp1a F C0 C1 Yp1 Yp Yp1,q Yp1,p2 Yp1a,qq Yp1a,p1 V R"), seeds...),
+				bfs("lsm", 6, 600, withOps(base, "Dq Sq Sp1a Dp1a F C0 Yp1 Yp1,p2 R"), seq("Sq F"), seq("Sq Sp2a F")),
 				sched("c29race", 3, 4, 600, prm("cases", 4)),
 				en("crash08", 16, 900, prm("oracle", "c29", "len", 5, "alphabet", "T2 TV WB F C DP DA R")),
 			}
